@@ -80,7 +80,7 @@ def gen_lines(rng, tier):
                                             framegen.rnd_bytes(rng, rng.choice([0, 20, 32, 48])).hex() or '-'))
         lines.append('mxenc %d %s' % (rng.choice([0, 10, 65535, rng.randrange(65536)]), rnd_name(rng)))
         lines.append('nameenc %s' % rnd_name(rng))
-        txt = bytes(rng.choice(b'abc =;v1~') for _ in range(rng.choice([0, 1, 10, 254, 255, 256])))
+        txt = bytes(rng.choice(b'abc =;v1~') for _ in range(rng.choice([0, 1, 10, 254, 255, 256, 257, 300, 509, 510, 511, 600, 1021])))    # beyond 255 octets: several character-strings
         lines.append('txtenc %s' % (txt.hex() or '-'))
         ts = lambda: rng.choice([0, 1, 2 ** 31, 2 ** 32 - 2, rng.randrange(2 ** 32 - 1)])
         lines.append('rrsigenc %d %d %d %d %d %d %d %s %s' % (rng.choice(rrs + [0xff00, 0xfffe]), rng.choice(algs), rng.randrange(256),
@@ -186,6 +186,16 @@ def run(chk):
                 nmx += 1
                 chk.violation('MX RDATA %s that is not an encoding of the specification is accepted: %s' % (l.split(' ')[1][:60], i[:100]), {'cmd': l, 'impl': i, 'spec': m}, None, True)
         chk.coverage['mx_decoded'] = len(mx_lines)
+        # TXT in the decode direction: the specification's RDATA (one string, or several for texts beyond 255 octets)
+        mx_lines += ['txtdec ' + (m[3:] or '-') for l, m in zip(lines, model_out) if l.startswith('txtenc ') and m.startswith('OK ')]
+        for l, m in zip(mx_lines, common.run_model(mx_lines)):
+            if not l.startswith('txtdec '):
+                continue
+            i = impl.impl_line(l)
+            if m != i and nmx < 6:
+                nmx += 1
+                chk.violation('parsing RFC-conformant TXT RDATA of %d octets does not give the text: implementation %s, specification %s' % (len(l.split(' ')[1]) // 2, i[:80], m[:80]),
+                              {'cmd': l, 'impl': i, 'spec': m}, None, True)
         dec_lines = dec_lines + mx_lines
     else:
         chk.violation('model runner does not build: %s' % br.failed_file, {'error': br.error}, None, False)
